@@ -264,3 +264,17 @@ pub fn m_replay_to_duration_dates() {
         _ => assert!(false),
     }
 }
+
+/// 'T1 to T2' on two times natively: (day, second of day) x 2
+pub fn m_replay_to_duration_times() {
+    let d1: i64 = vany(); let s1: u32 = vany(); let d2: i64 = vany(); let s2: u32 = vany();
+    vassume(d1 >= 0 && d1 <= 3652058 && d2 >= 0 && d2 <= 3652058 && s1 < 86400 && s2 < 86400);
+    let cfg = blank_config();
+    let s = Session::new();
+    let tk = mk_tokinizer(&cfg, &s);
+    let f = crate::verif_k::c05::fields2("source", TokenType::Time(dt(d1, s1), tz0()), "target", TokenType::Time(dt(d2, s2), tz0()));
+    match crate::tokinizer::verif_k_local::to_duration(&cfg, &tk, &f) {
+        Ok(TokenType::Duration(d)) => assert!(d.num_seconds() == ((d1 - d2) * 86400 + s1 as i64 - s2 as i64).abs()),
+        _ => assert!(false),
+    }
+}
